@@ -222,6 +222,14 @@ def ITE(c, a, b) -> sp.Basic:
     b = to_term(b)
     if a == b:
         return a
+    # one canonical orientation, so that `if c: A else: B` and `if not c: B else: A` are the same term
+    fc = fname(c)
+    if fc == "not_":
+        return ITE(c.args[0], b, a)
+    if fc == "ne":
+        return ITE(F_("eq")(*c.args), b, a)
+    if fc == "ge":
+        return ITE(F_("lt")(*c.args), b, a)
     return F_("ite")(c, a, b)
 
 
@@ -343,7 +351,13 @@ def resimplify(t: sp.Basic) -> sp.Basic:
 
 def assume(t: sp.Basic, facts: dict) -> sp.Basic:
     """Substitute boolean sub-terms by truth values and simplify."""
-    m = {to_term(k): (TRUE_T if v else FALSE_T) for k, v in facts.items()}
+    m = {}
+    for k, v in facts.items():
+        k = to_term(k)
+        m[k] = TRUE_T if v else FALSE_T
+        comp = {"eq": "ne", "ne": "eq", "lt": "ge", "ge": "lt"}.get(fname(k))
+        if comp is not None:
+            m[F_(comp)(*k.args)] = FALSE_T if v else TRUE_T
     return resimplify(to_term(t).xreplace(m))
 
 
